@@ -67,7 +67,7 @@ def trace_list(case, graph, pos):
         P = [v[0] for v in graph.values()]
         near = [(p[0] + 0.13, p[1] - 0.11) for p in P]
         n = len(P) - 1
-        return [[near[min(i, n)] for i in t] for t in ps.span_idx(n)] + [[near[0], al.FAR[pos], near[n]]]
+        return ms.axis_traces(graph) + [[near[min(i, n)] for i in t] for t in ps.span_idx(n)] + [[near[0], al.FAR[pos], near[n]]]
     o = al.OBS[pos]
     out = [list(t) for T in (1, 2) for t in itertools.product(o[:5], repeat=T)]
     out += [list(t) for t in itertools.product([o[0], o[2], o[3]], repeat=3)]
